@@ -11,6 +11,8 @@ static void enumerateAll(const std::function<void(const Spec &)> &f) {
   enumerateGpBase(gThorough ? 1 : 0, [&](const Spec &base, const GpShape &) {
     Spec s = base;
     f(s);
+    // every fourth instance also with a callback that widens the movable cells at the first upper bound (allowed there)
+    if (i % 4 == 2) { Spec rz = s; rz.aux = 2; f(rz); }
     // every single parameter deviation on a fixed subset of the base (all of it in thorough)
     bool dev = gThorough ? (i % 4 == 0) : (i % 24 == 0);
     ++i;
@@ -135,8 +137,16 @@ static vf::Verdicts eval(const Spec &s, vf::Ctx &ctx) {
   std::vector<int> lbx, lby, ubx, uby;
   int nLB = 0, nUB = 0, nPU = 0;
   auto zeroArea = [&](int i) { return (long long)s.cells[i].w * s.cells[i].h == 0; };
+  bool resized = false;
   CallResult r = guarded([&] {
     c.placeGlobal(params, [&](PlacementStep st) {
+      if (s.aux == 2 && st == PlacementStep::UpperBound && !resized) {
+        // a callback may change cell sizes during global placement: every movable cell of positive area one unit wider
+        resized = true;
+        std::vector<int> w = c.cellWidth();
+        for (int i = 0; i < n; ++i) if (!s.cells[i].fixed && w[i] > 0 && c.cellHeight()[i] > 0) w[i] += 1;
+        c.setCellWidth(w);
+      }
       for (int i = 0; i < n; ++i) {
         if (s.cells[i].fixed) continue;
         if (std::llabs((long long)c.cellX()[i]) >= (1LL << 28) || std::llabs((long long)c.cellY()[i]) >= (1LL << 28))
